@@ -249,6 +249,9 @@ fn spaces(tier: Tier) -> Vec<Space> {
             Space { alpha: "SHARE", depth: 3 },
             Space { alpha: "A1", depth: 2 },
             Space { alpha: "CORE", depth: 3 },
+            Space { alpha: "T3", depth: 2 },
+            Space { alpha: "Q", depth: 2 },
+            Space { alpha: "BIND", depth: 2 },
         ],
         Tier::Thorough => vec![
             Space { alpha: "A2", depth: 1 },
